@@ -36,6 +36,9 @@ def gen_decls(rng, next_def, nmax, used_lower, prefix):
         tries += 1
         recv = rng.choice([""] * 3 + nss) if nss else ""
         name = rng.choice(FUNC_NAMES)
+        others = [d["name"] for d in decls if d["recv"] != recv]
+        if others and rng.random() < 0.4:
+            name = rng.choice(others)      # the same function name as a plain target and as a namespace method (build / docker:build)
         if recv == "" and name in go_names:
             continue
         if (recv, name.lower()) in [(d["recv"], d["name"].lower()) for d in decls]:
@@ -77,17 +80,23 @@ def gen_project(rng, name):
         pkgs.append({"key": pn, "pkgname": pn, "alias": alias, "tagged": True, "decls": decls, "nss": nss})
     alld = [(p, d) for p in pkgs for d in p["decls"]]
     aliases = []
+    # declarations whose function name also occurs under another receiver of the same package: references to
+    # them (Aliases values, Default) must denote exactly that one
+    shared = [(p, d) for p, d in alld if any(e is not d and e["name"] == d["name"] for e in p["decls"])]
     for a in rng.sample(ALIAS_NAMES, rng.choice([0, 0, 1, 2, 3])):
         if a.lower() in used or a.lower() in [x[0].lower() for x in aliases]:
             continue
-        p, d = rng.choice(alld)
+        p, d = rng.choice(shared if shared and rng.random() < 0.5 else alld)
         aliases.append([a, d["def"]])
     default = None
     r = rng.random()
     if r < 0.6:
         noarg = [d["def"] for p, d in alld if not d["params"]]
         witharg = [d["def"] for p, d in alld if d["params"]]
-        if noarg and (rng.random() < 0.8 or not witharg):
+        sh_ = [d["def"] for p, d in shared]
+        if sh_ and rng.random() < 0.4:
+            default = rng.choice(sh_)
+        elif noarg and (rng.random() < 0.8 or not witharg):
             default = rng.choice(noarg)
         elif witharg:
             default = rng.choice(witharg)
